@@ -155,7 +155,7 @@ def rule_graceful(eng, rep):
                     "call %s is reachable on the input-error branch" % short(ci.node, 50), path=cfg.describe_path(p2))
         else:
             rep.ok(rule, site, "dominated by the false edge of the graceful-return test")
-    rep.require_count(rule, "evaluating calls in solve", len(evaluators), 4)
+    rep.require_count(rule, "evaluating calls in solve", len(evaluators), 3)      # x0 projection + first run + restart run (today 4)
     # (c) what the graceful branch returns
     rets = [r for r, d in cfg.g.nodes(data=True) if d["kind"] == "stmt" and isinstance(d["ast"], ast.Return)
             and cfg.path_avoiding(gtarget, r, []) is not None or r == gtarget and isinstance(cfg.ast_of(r), ast.Return)]
@@ -574,10 +574,11 @@ def rule_unknown_key(eng, rep):
     found = False
     for n in cfg.nodes_of_kind("cond"):
         a = atom_of(cfg.ast_of(n), True)
-        if a.op == "in" and isinstance(a.lhs, ast.Name) and a.lhs.id == key:
+        if a.op in ("in", "notin") and isinstance(a.lhs, ast.Name) and a.lhs.id == key:
             found = True
+            unknown_edge = (a.op == "notin")       # `if key in ...: else: raise`  or the guard clause  `if key not in ...: raise`
             for m, e in cfg.succ(n):
-                if e["label"] is False:
+                if e["label"] is unknown_edge:
                     # every path from m must end in `raise ValueError`
                     raises = [r for r, d in cfg.g.nodes(data=True) if d["kind"] == "stmt" and isinstance(d["ast"], ast.Raise)
                               and _raised_name(d["ast"]) == "ValueError"]
